@@ -32,7 +32,7 @@ TECHNIQUE = "deterministic simulation: frozen peer, bulk read vs single read for
 FILLS = [("zero", 0), ("ff", 0), ("bound", 1), ("bound", 2), ("hash", 1), ("hash", 2), ("step", 3), ("step", 4),
          ("sp32a", 1), ("sp32b", 1)]
 HISTORIES = ["plain", "battery_off_on", "battery_on_off", "single_first", "before_info", "settings_first",
-             "refused_block_first", "settings_refused_first", "concurrent_singles"]
+             "refused_block_first", "settings_refused_first", "concurrent_singles", "comm_address_written"]
 REPS = {"quick": 1, "thorough": 48}
 _SPACE = {}
 
@@ -179,6 +179,15 @@ def run_case(case):
                             break
                     except Exception:  # noqa
                         pass
+        if h == "comm_address_written" and fam == "ET":
+            # the application writes the inverter's comm address setting (the inverter keeps answering under the address
+            # this object was created for, and only under that one): bulk and single reads still agree
+            dev.comm_addr = 0xF7
+            if "comm_address" in {x.id_ for x in inv.settings()}:
+                try:
+                    await inv.write_setting("comm_address", 0x21)
+                except (ValueError, ge.InverterError):
+                    pass
         if h == "settings_refused_first":
             # ... and the inverter REFUSES those setting registers (older firmware): the sensor of the same id is
             # another register and stays readable
